@@ -4,6 +4,7 @@ import (
 	"fmt"
 	"go/constant"
 	"go/token"
+	"go/types"
 	"sort"
 	"strings"
 
@@ -23,11 +24,13 @@ func init() {
 			"(R1 marker) the content the writer emits for a watermark comes from one format constant (pkg/pdfcpu.wmContent) that opens a marked-content sequence; every string constant in pkg/pdfcpu that a function searches content for with strings.Index / bytes.Index / Contains and that starts the same way ('/Artifact') is a substring of that format, and both removeArtifacts and detectArtifacts have one. " +
 			"(R2 terminator) the constant removeArtifacts searches for the end of the sequence occurs in the format after the marker, and the number of bytes it cuts beyond the found position equals that constant's length (a shorter cut leaves operator bytes behind, a longer one eats page content). " +
 			"(R3 resources) the operators by which removeArtifacts finds the resources to release (' gs', ' Do') are the operators the format applies to its two resource names, and the name prefixes it looks for and rebuilds ('/GS' → \"GS\"…, '/Fm' → \"Fm\"…) are the prefixes updatePageWatermarkResource is called with. " +
+			"(R4 siblings) for /Contents arrays the remover and the detector index the same set of positions, containing 0 and len-1 (where the writer puts watermarks and stamps). " +
 			"NOT decided: that the page content after removal equals the original (value-level), watermarks of other producers, rotated pages, which content stream of a page is inspected, the form/ExtGState objects themselves.",
 		Rules: []string{
 			"C38.R1 TABLE: the readers' marker constants are substrings of the writer's format",
 			"C38.R2 TABLE: the end-of-sequence constant is in the format and the cut equals its length",
 			"C38.R3 TABLE: resource operators and name prefixes agree between writer and remover",
+			"C38.R4 siblings: remover and detector inspect the same positions of a /Contents array, the first and the last among them",
 		},
 		Assumptions: []string{"watermark content is produced by wmContent's format constant only"},
 		Level:       "other",
@@ -83,6 +86,8 @@ func runC38(c *Ctx) {
 	r.MinInst["C38.R1"] = 2
 	r.MinInst["C38.R2"] = 2
 	r.MinInst["C38.R3"] = 4
+	r.MinInst["C38.R4"] = 1
+	checkC38Positions(c)
 	const marker = "/Artifact"
 	// ---- the writer's format
 	wfn := p.Func("pkg/pdfcpu.wmContent")
@@ -248,4 +253,76 @@ func keysOf(m map[string]bool) []string {
 	}
 	sort.Strings(out)
 	return out
+}
+
+// R4 (siblings): for a page whose /Contents is an array the writer puts the wrapper into the first stream
+// (watermark: prepended) or into a stream appended at the end (stamp). The remover and the detector are two readers
+// of the same layout: the positions of the array they inspect must be the same set, and that set must contain the
+// first (index 0) and the last (len-1) element.
+func checkC38Positions(c *Ctx) {
+	p, r := c.P, c.R
+	positions := func(fn *ssa.Function) []string {
+		set := map[string]bool{}
+		var arr *ssa.Parameter
+		for _, q := range fn.Params {
+			if strings.HasSuffix(types.Unalias(q.Type()).String(), "types.Array") {
+				arr = q
+			}
+		}
+		if arr == nil {
+			return nil
+		}
+		eachInstr(fn, func(_ *ssa.BasicBlock, _ int, i ssa.Instruction) {
+			var idx ssa.Value
+			switch x := i.(type) {
+			case *ssa.IndexAddr:
+				if x.X == ssa.Value(arr) {
+					idx = x.Index
+				}
+			case *ssa.Index:
+				if x.X == ssa.Value(arr) {
+					idx = x.Index
+				}
+			}
+			if idx == nil {
+				return
+			}
+			if k, ok := c31ConstInt(idx); ok {
+				set[fmt.Sprint(k)] = true
+				return
+			}
+			if bo, ok := idx.(*ssa.BinOp); ok && bo.Op == token.SUB {
+				if la := lenArgOf(bo.X); la == ssa.Value(arr) {
+					if k, ok := c31ConstInt(bo.Y); ok {
+						set[fmt.Sprintf("len-%d", k)] = true
+						return
+					}
+				}
+			}
+			set["other"] = true
+		})
+		return keysOf(set)
+	}
+	rem, det := p.Func("pkg/pdfcpu.removeArtifactsFromContentArray"), p.Func("pkg/pdfcpu.detectArtifactsFromContentArray")
+	if rem == nil || det == nil {
+		r.Bad("C38.R4", "pkg/pdfcpu.removeArtifactsFromContentArray", "anchor", "", "UNRESOLVED-ANCHOR: the content-array readers were not found")
+		return
+	}
+	a, b := positions(rem), positions(det)
+	has := func(xs []string, s string) bool {
+		for _, x := range xs {
+			if x == s {
+				return true
+			}
+		}
+		return false
+	}
+	switch {
+	case strings.Join(a, ",") != strings.Join(b, ","):
+		r.Bad("C38.R4", FuncID(det), "positions inspected", p.Pos(det.Pos()), fmt.Sprintf("the detector inspects the elements {%s} of a /Contents array, the remover {%s}: a watermark one of them finds the other does not — detection and removal disagree about the same document", strings.Join(b, ", "), strings.Join(a, ", ")))
+	case !has(a, "0") || !has(a, "len-1"):
+		r.Bad("C38.R4", FuncID(rem), "positions inspected", p.Pos(rem.Pos()), fmt.Sprintf("the readers inspect {%s}; the writer puts a watermark into the first stream and a stamp into a stream appended at the end, so both index 0 and len-1 have to be looked at", strings.Join(a, ", ")))
+	default:
+		r.OK("C38.R4", FuncID(rem), "positions inspected", p.Pos(rem.Pos()), "remover and detector both inspect {"+strings.Join(a, ", ")+"}", true)
+	}
 }
